@@ -117,13 +117,44 @@ Proof.
   rewrite (coll_not_dead f c s HI Nc) in D. discriminate.
 Qed.
 
-Theorem top_exit_in_lock_orphans c sched p r :
+Theorem top_exit_in_lock_orphans c sched p r : f_fin_free f = false ->
   c_plan c = Some p -> p_kind p = KExit -> p_j p = Some r ->
   let s := run f c sched (init c None None) in
   s_fired s = true -> dead_ownerb s (s_store s) = true.
 Proof.
-  intros P1 P2 P3 s Fd. apply (exit_in_lock_orphans f c s p r); try assumption.
+  intros Hff P1 P2 P3 s Fd. apply (exit_in_lock_orphans f c s p r); try assumption.
   apply inv_of_run; left; reflexivity.
+Qed.
+
+(* the repaired code: ANY fault (or none), any schedule - the run never
+   hangs, can always be completed, and ends clean *)
+Theorem top_run_always_clean c sched :
+  f_fin_free f = true -> 1 <= c_workers c ->
+  let s := run f c sched (init c None None) in
+  (final s = false -> can_move f c s) /\
+  ~ stuck f c s /\
+  (final s = true -> clean_end c s) /\
+  (forall e, s_pc s = MRaised e ->
+     s_fired s = true /\
+     exists p, c_plan c = Some p /\
+       match p_kind p with
+       | KRaise e0 => e = expected_class f c p e0
+       | KExit => e = E_FSE
+       end) /\
+  (s_fired s = true -> s_pc s <> MReturn) /\
+  (exists sched', final (run f c (sched ++ sched') (init c None None)) = true).
+Proof.
+  intros Hff HW s.
+  assert (HI : Inv f c s) by (apply inv_of_run; left; reflexivity).
+  destruct (fresh_no_dead c sched) as [Ns Nc]. fold s in Ns, Nc.
+  split; [intros F; exact (always_can_move f c s HI Hff HW Ns Nc F)|].
+  split; [exact (not_stuck f c s HI Hff HW Ns Nc)|].
+  split; [intros F; exact (inv_final_clean_freed f c s HI Hff Nc F)|].
+  split; [intros e Hpc; exact (inv_raised_class f c Hok s e HI Hpc)|].
+  split; [apply (inv_failure_never_returns f c s HI)|].
+  destruct (terminable_freed f c Hok Hff HW (measure c s) s (le_n _) HI Ns Nc)
+    as [sched' Hf].
+  exists sched'. rewrite run_app. exact Hf.
 Qed.
 
 Theorem top_observe_allowed c sched p : 1 <= c_workers c ->
@@ -218,24 +249,24 @@ Proof.
 Qed.
 
 Lemma pool_table_sound hs : pool_table_ok hs = true ->
-  forall e, map_exc hs e = if String.eqb e E_BPP then E_FSE else e.
+  forall e, e <> E_BPP -> map_exc hs e = e.
 Proof.
-  destruct hs as [|[h r] [|x rest]]; try discriminate. cbn [pool_table_ok].
-  rewrite andb_true_iff, !String.eqb_eq. intros [-> ->] e.
+  destruct hs as [|[h r] [|x rest]]; try discriminate; [reflexivity|].
+  cbn [pool_table_ok].
+  rewrite andb_true_iff, !String.eqb_eq. intros [-> ->] e Hne.
   cbn [map_exc]. unfold catches.
   change (String.eqb E_BPP "Exception") with false.
   change (String.eqb E_BPP "BaseException") with false. rewrite !orb_false_r.
-  change (String.eqb E_FSE "reraise") with false.
-  rewrite (String.eqb_sym E_BPP e). reflexivity.
+  destruct (String.eqb_spec E_BPP e) as [E|_]; [congruence|reflexivity].
 Qed.
 
-Lemma main_class_sound f : pool_table_ok (f_inner f) = true ->
-  pool_table_ok (f_outer f) = true ->
+Lemma main_class_sound f : facts_ok f = true ->
+  pool_table_ok (f_inner f) = true -> pool_table_ok (f_outer f) = true ->
   forall e, main_class f e = if String.eqb e E_BPP then E_FSE else e.
 Proof.
-  intros Hi Ho e. unfold main_class.
-  rewrite (pool_table_sound _ Hi e), (pool_table_sound _ Ho).
+  intros Hok Hi Ho e.
   destruct (String.eqb_spec e E_BPP) as [->|Hn].
-  - reflexivity.
-  - destruct (String.eqb_spec e E_BPP); [contradiction|reflexivity].
+  - unfold facts_ok in Hok. rewrite !andb_true_iff, !String.eqb_eq in Hok. tauto.
+  - unfold main_class. rewrite (pool_table_sound _ Hi e Hn).
+    apply (pool_table_sound _ Ho e Hn).
 Qed.
